@@ -412,6 +412,163 @@ static Problem genRandom(uint64_t seed, long g, bool thorough) {
     return p;
 }
 
+
+// ------------------------------------------------------------------------------ extension block
+// Groups G .. G+X-1 (after the exhaustive and the random block, so that the numbering of the older
+// cases is unchanged).  Group kind by (g-G)%4:
+//   0,1,2 : static-solver classes (only r=2 is emitted), built to reach what the random DAGs rarely
+//           reach: out-of-date time stamps at a heap root, internal constraints in heaps, merges in both
+//           directions in mergeLeft AND mergeRight, refine splits, several refine rounds, weights
+//   3     : `eq-sameblock` histories for the incremental solvers (r=0,1): an equality is added between
+//           two variables of ONE block that holds several stretched inequalities
+static double q16(vh::Rng &r, long lo, long hi) { return (double) r.range(lo, hi) / 16.0; }
+
+// the "stale" motif on fresh variables u,w,x,v:  u->x, u->w (in this order in u's out list), x->v, w->v;
+// w is processed (its in-heap built) before x merges with u, and v then merges with w: u->w is out of
+// date at the root of w's heap.
+static void addStaleMotif(vh::Rng &r, Problem &p, int u, int w, int x, int v) {
+    double base = q16(r, -320, 320);
+    p.des[u] = base; p.des[w] = base + q16(r, 64, 320);
+    p.des[x] = base - q16(r, 16, 320); p.des[v] = base - q16(r, 16, 320);
+    PCon c0 = {u, x, q16(r, 1, 64), 0}, c1 = {u, w, q16(r, 1, 48), 0}, c2 = {x, v, q16(r, 1, 64), 0}, c3 = {w, v, q16(r, 1, 64), 0};
+    p.cons.push_back(c0); p.cons.push_back(c1); p.cons.push_back(c2); p.cons.push_back(c3);
+}
+
+static Problem genStatic(uint64_t seed, long g, bool thorough) {
+    vh::Rng r = vh::caseRng(seed, (uint64_t) g);
+    Problem p;
+    Style s;
+    int kind = (int) r.range(0, 4);
+    bool wild = r.coin(40, 100);
+    static const double W[8] = {1, 1, 2, 4, 0.5, 8, 1000, 0.25};
+    switch (kind) {
+    case 0: {           // stale motifs (1..3 copies) + a few random forward edges between them
+        p.tag = "st-stale";
+        int copies = (int) r.range(1, thorough ? 4 : 3);
+        int extra = (int) r.range(0, 3);
+        p.setN(4 * copies + extra);
+        std::vector<int> o = randomPerm(r, p.n);
+        for (int i = 0; i < p.n; ++i) p.des[i] = q16(r, -320, 320);
+        for (int c = 0; c < copies; ++c) addStaleMotif(r, p, o[4 * c], o[4 * c + 1], o[4 * c + 2], o[4 * c + 3]);
+        int m = (int) r.range(0, p.n);
+        for (int e = 0; e < m; ++e) {
+            int a = (int) r.range(0, p.n - 1), b = (int) r.range(0, p.n - 1);
+            if (a == b) continue;
+            if (a > b) std::swap(a, b);
+            if (a / 4 == b / 4 && a < 4 * copies) continue;      // keep the motifs' out-list order
+            PCon c = {o[a], o[b], q16(r, -32, 96), 0};
+            p.cons.push_back(c);
+        }
+        break; }
+    case 1: {           // drag: random DAG, a few heavy far-out variables pull blocks apart again
+        p.tag = "st-drag";
+        p.setN((int) r.range(3, thorough ? 24 : 12));
+        std::vector<int> o = randomPerm(r, p.n);
+        genDagEdges(r, p, s, o, (int) r.range(p.n - 1, 2 * p.n), 10);
+        for (int i = 0; i < p.n; ++i) p.des[i] = q16(r, -160, 160);
+        wild = false;
+        for (int i = 0; i < p.n; ++i) {
+            if (r.coin(25, 100)) { p.wt[i] = r.coin() ? 1000.0 : 64.0; p.des[i] = (r.coin() ? 1.0 : -1.0) * (double) r.range(50, 200); }
+            else p.wt[i] = W[r.range(0, 5)];
+        }
+        break; }
+    case 2: {           // descending: desired positions against the constraint order -> long merge chains,
+                        // diamonds -> internal constraints in merged heaps
+        p.tag = "st-desc";
+        p.setN((int) r.range(3, thorough ? 30 : 12));
+        std::vector<int> o = randomPerm(r, p.n);
+        genDagEdges(r, p, s, o, (int) r.range(p.n, 3 * p.n), 10);
+        double step = q16(r, 0, 64);
+        for (int i = 0; i < p.n; ++i) p.des[o[i]] = -i * step + q16(r, -64, 64);
+        break; }
+    case 3: {           // layered: blocks of very different sizes meet (both merge directions)
+        p.tag = "st-layers";
+        int L = (int) r.range(2, 4);
+        std::vector<std::vector<int> > layer(L);
+        int n = 0;
+        for (int l = 0; l < L; ++l) { int sz = (int) r.range(1, l % 2 ? 2 : 5); for (int i = 0; i < sz; ++i) layer[l].push_back(n++); }
+        p.setN(n);
+        for (int l = 0; l + 1 < L; ++l)
+            for (size_t a = 0; a < layer[l].size(); ++a)
+                for (size_t b = 0; b < layer[l + 1].size(); ++b)
+                    if (r.coin(70, 100)) { PCon c = {layer[l][a], layer[l + 1][b], q16(r, 1, 64), 0}; p.cons.push_back(c); }
+        for (int l = 0; l < L; ++l) for (size_t a = 0; a + 1 < layer[l].size(); ++a)
+            if (r.coin(60, 100)) { PCon c = {layer[l][a], layer[l][a + 1], q16(r, 1, 32), 0}; p.cons.push_back(c); }
+        for (int l = 0; l < L; ++l) for (size_t a = 0; a < layer[l].size(); ++a)
+            p.des[layer[l][a]] = -(double) l * q16(r, 0, 64) + q16(r, -32, 32);
+        if (r.coin()) r.shuffle(p.cons);
+        break; }
+    default: {          // zig-zag chain with skip edges: alternating pulls, many refine rounds
+        p.tag = "st-zigzag";
+        p.setN((int) r.range(3, thorough ? 40 : 14));
+        std::vector<int> o = randomPerm(r, p.n);
+        for (int i = 0; i + 1 < p.n; ++i) { PCon c = {o[i], o[i + 1], q16(r, 1, 48), 0}; p.cons.push_back(c); }
+        for (int i = 0; i + 2 < p.n; ++i) if (r.coin(25, 100)) { PCon c = {o[i], o[i + 2], q16(r, 1, 96), 0}; p.cons.push_back(c); }
+        for (int i = 0; i < p.n; ++i) p.des[o[i]] = ((i / 2) % 2 ? 1.0 : -1.0) * q16(r, 0, 480) ;
+        if (r.coin()) r.shuffle(p.cons);
+        break; }
+    }
+    if (wild && kind != 1) for (int i = 0; i < p.n; ++i) p.wt[i] = W[r.range(0, 7)];
+    p.m0 = (int) p.cons.size();
+    p.staticSolve = r.coin(75, 100);
+    POp o = {p.staticSolve ? OP_SOLVE : OP_SATISFY, 0, 0.0};
+    p.ops.push_back(o);
+    return p;
+}
+
+// `eq-sameblock`: hub m with k>=2 satellites a_i, a_i + g_i <= m (mirror: m + g_i <= a_i), all tight after
+// the first satisfy; then a heavy far-away z drags m (z + G <= m, mirror: m + G <= z), so that every
+// a_i -> m is stretched (negative multiplier) while only ONE of them is split by splitBlocks() per satisfy;
+// then an equality between one satellite and m is added whose gap lies between g_j and the distance the
+// two halves spring apart to; in either orientation; followed by satisfy/solve calls.
+static Problem genEqSameBlock(uint64_t seed, long g, bool thorough) {
+    vh::Rng r = vh::caseRng(seed, (uint64_t) g);
+    Problem p;
+    p.tag = "eq-sameblock";
+    int k = (int) r.range(2, thorough ? 5 : 4);
+    int extra = (int) r.range(0, 2);
+    p.setN(k + 2 + extra);
+    const int m = k, z = k + 1;
+    bool mirror = r.coin();
+    double sgn = mirror ? -1.0 : 1.0;
+    std::vector<double> gi(k);
+    for (int i = 0; i < k; ++i) {
+        gi[i] = (double) r.range(1, 40);
+        p.des[i] = sgn * (double) r.range(0, 8);          // satellites want to sit beyond m: tight
+        PCon c = mirror ? PCon{m, i, gi[i], 0} : PCon{i, m, gi[i], 0};
+        p.cons.push_back(c);
+    }
+    p.des[m] = 0; p.des[z] = 0; p.wt[z] = r.coin() ? 1000.0 : 64.0;
+    for (int i = 0; i < extra; ++i) p.des[k + 2 + i] = (double) r.range(-20, 20);
+    p.m0 = k;
+    double G = (double) r.range(80, 240);
+    PCon cz = mirror ? PCon{m, z, G, 0} : PCon{z, m, G, 0};
+    int j = (int) r.range(0, k - 1);
+    double ge = gi[j] + (double) r.range(1, 40);           // > g_j, < the spring distance (about G)
+    bool flipE = r.coin(30, 100);
+    PCon ce = mirror ? PCon{m, j, ge, 1} : PCon{j, m, ge, 1};
+    if (flipE) { std::swap(ce.l, ce.r); ce.gap = -ce.gap; }
+    p.cons.push_back(cz); p.cons.push_back(ce);
+    for (int i = 0; i < extra; ++i) {                       // bystander inequalities, added at the end
+        PCon c = {k + 2 + i, (int) r.range(0, k), (double) r.range(-10, 10), 0};
+        if (r.coin()) std::swap(c.l, c.r);
+        p.cons.push_back(c);
+    }
+    POp sat = {OP_SATISFY, 0, 0.0}, sol = {OP_SOLVE, 0, 0.0};
+    p.ops.push_back(r.coin(80, 100) ? sat : sol);
+    POp a1 = {OP_ADD, k, 0.0}; p.ops.push_back(a1);
+    p.ops.push_back(r.coin(85, 100) ? sat : sol);          // one satisfy: z merged, satellites stretched
+    if (r.coin(20, 100)) p.ops.push_back(sat);             // sometimes one more: one satellite already split off
+    POp a2 = {OP_ADD, k + 1, 0.0}; p.ops.push_back(a2);
+    p.ops.push_back(r.coin(75, 100) ? sat : sol);
+    for (int i = 0; i < extra; ++i) { POp a = {OP_ADD, k + 2 + i, 0.0}; p.ops.push_back(a); }
+    int tail = (int) r.range(0, 2);
+    for (int i = 0; i < tail; ++i) p.ops.push_back(r.coin() ? sat : sol);
+    if (extra > 0 && tail == 0) p.ops.push_back(sat);
+    p.staticSolve = true;
+    return p;
+}
+
 // ------------------------------------------------------------------------------ exhaustive block
 // Level n: all multisets (non-decreasing index sequences) of k <= K (pair,gap) combos over the
 // ordered pairs l != r, times a fixed list of desired-position patterns; weights = scales = 1,
@@ -679,8 +836,9 @@ int main(int argc, char **argv) {
     long R = (thorough ? 6000 : 400) * a.scale;
     if (a.n >= 0) R = a.n;
     const long G = E + R;
-    long gLo = 0, gHi = G;
-    if (a.only >= 0) { gLo = a.only / 3; gHi = std::min(G, gLo + 1); }
+    const long X = (thorough ? 3200 : 240) * a.scale;          // extension block, see genStatic / genEqSameBlock
+    long gLo = 0, gHi = G + X;
+    if (a.only >= 0) { gLo = a.only / 3; gHi = std::min(G + X, gLo + 1); }
     if (a.mode == "findings") {
         // Known-defect streams, NOT part of the default plan (the clean tree must stay quiet):
         //  tag static-eq     : static vpsc::Solver on an acyclic system that contains equalities
@@ -688,7 +846,7 @@ int main(int argc, char **argv) {
         //                      unflagged equalities violated)
         //  tag static-scaled : static vpsc::Solver with non-unit scales (Blocks::split copies posn
         //                      between blocks of different ps.scale; refine() can then assert/throw)
-        for (long g = std::max(gLo, E); g < gHi; ++g) {
+        for (long g = std::max(gLo, E); g < std::min(gHi, G); ++g) {
             Problem p = genRandom(a.seed, g, thorough);
             long k = 3 * g + 2;
             if (!a.want(k) || hasCycle(p)) continue;
@@ -700,6 +858,17 @@ int main(int argc, char **argv) {
         }
         return 0;
     }
+    for (long g = std::max(gLo, G); g < gHi && !risky; ++g) {     // extension block
+        if ((g - G) % 4 == 3) {
+            Problem p = genEqSameBlock(a.seed, g, thorough);
+            if (a.want(3 * g)) runCase<VpscInc>(3 * g, p, p.m0, p.ops);
+            if (a.want(3 * g + 1)) runCase<AvoidInc>(3 * g + 1, p, p.m0, p.ops);
+        } else {
+            Problem p = genStatic(a.seed, g, thorough);
+            if (a.want(3 * g + 2)) runCase<VpscStatic>(3 * g + 2, p, p.m0, p.ops);
+        }
+    }
+    gHi = std::min(gHi, G);
     for (long g = gLo; g < gHi; ++g) {
         if (risky && g < E) continue;           // nothing is held back in the exhaustive block
         Problem p = (g < E) ? exh.make((uint64_t) g) : genRandom(a.seed, g, thorough);
